@@ -154,52 +154,83 @@ def member? (name : String) : Option Member := members.find? (fun m => m.name ==
 /-- the row, or an empty row for an unknown name -/
 def memberD (name : String) : Member := (member? name).getD ⟨name, none, [], [], none⟩
 
-/-! ### the solver object and its regularisation list (round 4; seeded/C04-seed4)
+/-! ### the solver object and its regularisation list (round 4; seeded/C04-seed4; round 9: regenerated sites)
 
-`LocalNetwork` owns the solver object `least_squares`.  `set_algorithm()` creates a NEW object — which regularises
-over ALL unknowns until it is told otherwise — and calls `update(Points)`.  `project_equations()` rebuilds the list
-`min_x_` (the constrained coordinates of a free network) and hands it to the solver: `least_squares->min_x(min_n_,
-min_x_)`, on EVERY run.  Which list the CURRENT solver object holds is therefore state of the network, separate from
-the list the network computed; the adjustment artefacts (level 3) carry, as ghost, the list the solver held when it
-produced them.  `handOnChange` is the seeded variant that hands the list over only when it differs from the previous
-run's: after `set_algorithm` the new object is never told. -/
+`LocalNetwork` owns the solver object `least_squares`.  `set_algorithm(name)` creates a NEW object of the class the
+name selects — which regularises over ALL unknowns until it is told otherwise — and calls `update(Points)`.
+`project_equations()` rebuilds the list `min_x_` (the constrained coordinates of a free network) and hands it to the
+solver: `least_squares->min_x(min_n_, min_x_)`, on EVERY run.  Which list the CURRENT solver object holds is therefore
+state of the network, separate from the list the network computed; the adjustment artefacts (level 3) carry, as ghost,
+the list the solver held and the class of the solver when it produced them.
+
+Round 9: neither step is hand-written any more.  `handCode` and `setAlgCode` INTERPRET the two rows the translator
+reads from network.cpp (`Gen.handOver`: where the call stands and with which arguments; `Gen.setAlg`: is the object
+replaced by a brand-new one, which class, is it told a list, which `update(L)`), so a source change at either site
+changes the model, and `Lemmas/NetStateSolver.lean` (`handCode_eq`, `setAlgCode_eq`) stops compiling.
+`handOnChange` is the seeded variant that hands the list over only when it differs from the previous run's: after
+`set_algorithm` the new object is never told.  The list content is the list itself (round 9; was an abstract `Nat`):
+`Model/NetDenote.lean` instantiates it with `np.minx` of `PE.projectEquations`. -/
 
 /-- what a solver object was told to regularise over -/
 inductive SList
-  | dflt                   -- never told: the solver's default, ALL unknowns
-  | given (content : Nat)  -- `min_x(n, list)` with this list (identified by its content)
+  | dflt                         -- never told: the solver's default, ALL unknowns
+  | given (content : List Nat)   -- `min_x(n, list)` with this list
 deriving Repr, DecidableEq
 
 structure MInput where
   net : NInput
-  /-- content of the list `project_equations` computes, a function of the configuration the numbering depends on
-      (levels ≤ 2); arbitrary in the theorems (a constant function = "the list does not change", the realistic case
-      across `set_algorithm`) -/
-  lst : Cfg → Nat
+  /-- the list `project_equations` computes, a function of the configuration the numbering depends on
+      (levels ≤ 2); arbitrary in the theorems of `Lemmas/NetStateSolver.lean` (a constant function = "the list does not
+      change", the realistic case across `set_algorithm`); `Model/NetDenote.lean`: `np.minx` of the network the
+      configuration names -/
+  lst : Cfg → List Nat
 
 structure MState where
   net : NState
   /-- the list the CURRENT solver object holds -/
   held : SList
-  /-- `min_x_`/`min_n_` of the network: the list computed by the last `project_equations` (`none` = nullptr) -/
-  netList : Option Nat
+  /-- `min_x_`/`min_n_` of the network: the list computed by the last `project_equations` (`none` = nullptr, `min_n_ = 0`) -/
+  netList : Option (List Nat)
   /-- ghost: the list the solver held when it produced the adjustment artefacts -/
   a3list : Option SList
+  /-- class of the CURRENT solver object (`AdjGSO`, `AdjSVD`, `AdjCholDec`, `AdjEnvelope`) -/
+  cls : String := Gen.setAlg.dflt.2
+  /-- ghost: class of the solver object that produced the adjustment artefacts -/
+  a3cls : Option String := none
 deriving Repr, DecidableEq
 
-def minit (c : Cfg) : MState := { net := ninit c, held := .dflt, netList := none, a3list := none }
+/-- a network on which `set_algorithm` selected class `cls` and nothing else happened -/
+def minit (c : Cfg) (cls : String := Gen.setAlg.dflt.2) : MState :=
+  { net := ninit c, held := .dflt, netList := none, a3list := none, cls := cls, a3cls := none }
 
 inductive MOp
   | net (op : NOp)
-  | setAlgorithm            -- `set_algorithm(name)`: new solver object, `update(Points)`
+  | setAlgorithm (name : String := "")   -- `set_algorithm(name)`: new solver object, `update(Points)`
 deriving Repr, DecidableEq
 
-/-- the code: `least_squares->min_x(min_n_, min_x_)` on every run of `project_equations` -/
-def handCode (_prev : Option Nat) (new : Nat) (_held : SList) : SList := .given new
+/-- the hand-over as the generated row describes it.  A single call at depth 0 with the members `min_n_`, `min_x_` as
+    arguments, reached on every pass (every earlier `return` is the restart, which reaches its own): the solver is
+    told the list just built if the call stands after the last write of the list, the list of the PREVIOUS run
+    (`nullptr`, 0 = the empty list on the first) if it stands before.  No call: the solver is never told.  Anything
+    else (guarded call, other arguments, several calls): at best "when the list changed" (`handOnChange`). -/
+def handGen (h : Gen.HandOver) (prev : Option (List Nat)) (new : List Nat) (held : SList) : SList :=
+  if h.count = 0 then held
+  else if h.count = 1 && h.depth0 && h.args == ["min_n_", "min_x_"] && h.returnsRestart && h.afterReset && h.beforeFlag then
+    (if h.afterBuild then .given new else .given (prev.getD []))
+  else if prev = some new then held else .given new
+
+/-- the code: `least_squares->min_x(min_n_, min_x_)` on every run of `project_equations` (`handCode_eq`) -/
+def handCode : Option (List Nat) → List Nat → SList → SList := handGen Gen.handOver
 
 /-- seeded/C04-seed4: only when the list differs from the previous run's ("the solver keeps its list over reset()") -/
-def handOnChange (prev : Option Nat) (new : Nat) (held : SList) : SList :=
+def handOnChange (prev : Option (List Nat)) (new : List Nat) (held : SList) : SList :=
   if prev = some new then held else .given new
+
+/-- the class `set_algorithm(name)` creates -/
+def classOf (t : Gen.SetAlg) (name : String) : String :=
+  match t.classes.find? (fun e => e.1 == name) with
+  | some e => e.2
+  | none => t.dflt.2
 
 /-- the state in which a member reads: after its unconditional prefix (no compute function runs for the other ops) -/
 def prefixState (inp : NInput) (s : NState) : NOp → NState
@@ -210,12 +241,25 @@ def readsAdjustment : NOp → Bool
   | .call m => m.reads.contains 3
   | _ => false
 
+/-- `set_algorithm(name)` as the generated row describes it: a brand-new object (no `return`, `least_squares = new …`
+    the only assignment) that is not told a list and was not fed from the old one holds the default and has the class
+    the name selects; otherwise the old object's list (and class) stay.  The choice of the algorithm is a
+    configuration change at level Points; the `update(L)` issued is the row's (none: no flag is cleared). -/
+def setAlgGen (t : Gen.SetAlg) (m : MState) (name : String) : MState :=
+  let fresh := t.freshObject && t.listCalls == 0 && !t.readsOld
+  let net := { m.net with cfg := bump m.net.cfg 0 }
+  let net := match t.update with
+    | some l => if t.updateDepth0 then update net l else net
+    | none => net
+  { m with net := net, held := if fresh then .dflt else m.held, cls := if fresh then classOf t name else m.cls }
+
 /-- one call.  `project_equations` ran iff `tst_rov_opr_` went from false to true during the prefix (its body is the
     only code that sets the flag), `vyrovnani_` produced new artefacts iff `tst_vyrovnani_` did.  The second component
-    of the answer is the list held by the solver that produced the adjustment artefacts the member reads. -/
-def mstepWith (hand : Option Nat → Nat → SList → SList) (inp : MInput) (m : MState) : MOp → MState × (NOut × Option SList)
-  | .setAlgorithm =>
-    ({ m with net := (nstep inp.net m.net (.change 0)).1, held := .dflt }, (.ok, none))
+    of the answer is the list held by — and the class of — the solver that produced the adjustment artefacts the
+    member reads. -/
+def mstepWith (hand : Option (List Nat) → List Nat → SList → SList) (t : Gen.SetAlg) (inp : MInput) (m : MState) :
+    MOp → MState × (NOut × Option (SList × String))
+  | .setAlgorithm name => (setAlgGen t m name, (.ok, none))
   | .net op =>
     let p := prefixState inp.net m.net op
     let ran := !m.net.f2 && p.f2
@@ -224,14 +268,19 @@ def mstepWith (hand : Option Nat → Nat → SList → SList) (inp : MInput) (m 
     let held := if ran then hand m.netList new m.held else m.held
     let netList := if ran then some new else m.netList
     let a3list := if adj then some held else m.a3list
-    ({ net := (nstep inp.net m.net op).1, held := held, netList := netList, a3list := a3list },
-     ((nstep inp.net m.net op).2, if readsAdjustment op then a3list else none))
+    let a3cls := if adj then some m.cls else m.a3cls
+    ({ net := (nstep inp.net m.net op).1, held := held, netList := netList, a3list := a3list, cls := m.cls, a3cls := a3cls },
+     ((nstep inp.net m.net op).2,
+      if readsAdjustment op then (match a3list, a3cls with | some l, some c => some (l, c) | _, _ => none) else none))
 
-def mrunWith (hand : Option Nat → Nat → SList → SList) (inp : MInput) (m : MState) : List MOp → MState
+def mrunWith (hand : Option (List Nat) → List Nat → SList → SList) (t : Gen.SetAlg) (inp : MInput) (m : MState) : List MOp → MState
   | [] => m
-  | o :: os => mrunWith hand inp (mstepWith hand inp m o).1 os
+  | o :: os => mrunWith hand t inp (mstepWith hand t inp m o).1 os
 
-def mstep : MInput → MState → MOp → MState × (NOut × Option SList) := mstepWith handCode
-def mrun : MInput → MState → List MOp → MState := mrunWith handCode
+def mstep : MInput → MState → MOp → MState × (NOut × Option (SList × String)) := mstepWith handCode Gen.setAlg
+def mrun : MInput → MState → List MOp → MState := mrunWith handCode Gen.setAlg
+
+/-- variant table: `set_algorithm` keeps the old solver object (e.g. an early `return` for an unchanged name) -/
+def setAlgKeep : Gen.SetAlg := { Gen.setAlg with freshObject := false }
 
 end Gama.C04.Net
